@@ -7,6 +7,7 @@ mod hist;
 pub mod isolate;
 mod model;
 mod props2;
+mod props_conc;
 mod props_crash;
 mod props_damage;
 mod props_db;
@@ -34,6 +35,8 @@ fn isolated(id: &str) -> Option<(&'static str, u64)> {
         "C04" => Some(("c04-storage", 60)),
         "C07" => Some(("c07-damage", 30)),
         "C21" => Some(("c21-deserialize", 30)),
+        // a race that corrupts a read can send the reader into an endless scan: watchdog
+        "C23" => Some(("c23-concurrent", 90)),
         "C32" => Some(("c32-fault", 60)),
         _ => None,
     }
@@ -91,6 +94,10 @@ pub fn main_entry() {
     let mut ctx = Ctx::new(&id, tier, seed);
     if ctx.child.is_none() {
         if let Some((campaign, watchdog)) = isolated(&id) {
+            if id == "C23" {
+                // every case starts up to 16 reader threads of its own
+                ctx.workers = (ctx.workers / 4).max(2);
+            }
             isolate::supervise(&mut ctx, campaign, watchdog, 2);
             std::process::exit(ctx.finish());
         }
@@ -110,6 +117,7 @@ pub fn main_entry() {
         "C20" => props_ser::c20(&mut ctx),
         "C21" => props_ser::c21(&mut ctx),
         "C22" => props_ser::c22(&mut ctx),
+        "C23" => props_conc::c23(&mut ctx),
         "C24" => props_server::c24(&mut ctx),
         "C25" => props_server::c25(&mut ctx),
         "C26" => props_server::c26(&mut ctx),
@@ -147,6 +155,7 @@ fn replay_one(id: &str, path: &str) -> i32 {
         "C20" => props_ser::c20_replay(path),
         "C21" => props_ser::c21_replay(path),
         "C22" => props_ser::c22_replay(path),
+        "C23" => props_conc::c23_replay(path),
         "C24" => props_server::c24_replay(path),
         "C25" => props_server::c25_replay(path),
         "C26" => props_server::c26_replay(path),
